@@ -318,16 +318,16 @@ def readNoteN (tb : Int) (c : Cur) : Tok × Cur :=
     | _ => (.none, t.2)
   (tok .noteN 0 [no.1, .str ln.1, .int q.1, .int v.1, .int t.1, sl.1], sl.2)
 
+/-- an optional leading `*` -/
+def stripStar : List Nat → List Nat
+  | 42 :: r => r
+  | s => s
+
 /-- `read_rest` -/
 def readRest (c : Cur) : Tok × Cur :=
-  let s1 := match c.s with
-    | 42 :: r => r
-    | _ => c.s
-  let (dir, s2) := match s1 with
-    | 45 :: r => ((-1 : Int), r)
-    | _ => (1, s1)
-  let ln := (Cur.mk s2 c.line).noteLength
-  (tok .rest dir [.str ln.1], ln.2.skipSpace)
+  let m := stripMinus (stripStar c.s)
+  let ln := (Cur.mk m.2 c.line).noteLength
+  (tok .rest m.1 [.str ln.1], ln.2.skipSpace)
 
 /-- the words after `.` that select a reservation; only `Random` is inside the modelled subset -/
 def isReserveWord (w : List Nat) : Bool :=
